@@ -205,6 +205,14 @@ def check_cds(spec, ctx):
     combos = [(t_, tr_, s_) for t_ in ("DEFAULT", "STANDARD", "PROKARYOTE") for tr_ in (False, True) for s_ in (True, False)]
     order = spec.get("translate_order") or list(range(len(combos)))[::-1]
     shared = fresh()
+    if spec.get("predicates_first"):
+        # the stop / start predicates asked of the same object before any translation
+        for pred in ("has_in_frame_stop", "has_valid_stop", "has_canonical_start_codon", "num_codons"):
+            try:
+                getattr(shared, pred)
+            except (BioCantorException, ValueError):
+                pass
+        ctx.label("predicates_before_translation")
     for i_ in order:
         table, truncate, strict = combos[i_ % len(combos)]
         exp = model_translate(mseqs, table, truncate, strict)
@@ -355,6 +363,7 @@ def strat_cds(draw, tier="quick"):
     # (a list with repetitions rather than st.permutations: the latter is rejected by Hypothesis' byte-string provider, which
     # would starve the coverage-guided leg that drives this same strategy)
     sp["translate_order"] = draw(st.lists(st.integers(0, 11), min_size=6, max_size=16))
+    sp["predicates_first"] = draw(st.booleans())
     return sp
 
 
